@@ -40,12 +40,15 @@ def phys_same(read, orig, p1, p2, S=1e6):
     return eq(read * p1, orig * p2, S) if (sx.is_sym(read) or sx.is_sym(orig) or sx.is_sym(p1) or sx.is_sym(p2)) else abs(read * p1 - orig * p2) <= 1e-9 * max(abs(orig * p2), 1e-300)
 
 
-def h_value(shape, unit):
+def h_value(shape, unit, transposed=False):
     def fn():
         uc = install('')
         vals = np.empty(shape, dtype=object)
         for k in np.ndindex(shape): vals[k] = var('v' + ''.join(map(str, k)), -100, 100)
         arr = sa(vals) if shape else vals[()]
+        if transposed:
+            # the same values handed over as a transposed (not C-contiguous) view of the transposed storage
+            arr = sa(np.ascontiguousarray(vals.T)).T if sx.symbolic_mode() else np.ascontiguousarray(np.asarray(vals.tolist(), dtype=float).T).T
         p1 = ufac(uc, unit)
         m = uc.model(arr, unit)
         ob = []
@@ -103,7 +106,7 @@ def h_box(unit):
     return fn
 
 
-def h_system(pos_unit, box_unit):
+def h_system(pos_unit, box_unit, via_dump=False):
     def fn():
         import atomman as am
         uc = install('')
@@ -111,10 +114,15 @@ def h_system(pos_unit, box_unit):
         P = [[var(f'p{k}{j}', -20, 20) for j in range(3)] for k in range(2)]
         F = [[var(f'f{k}{j}', -5, 5) for j in range(2)] for k in range(2)]
         E = [var(f'e{k}', -5, 5) for k in range(2)]
-        s = am.System(atoms=am.Atoms(pos=sa(P), atype=[2, 1], force2=sa(F), energy=sa(E), count=np.array([4, 6])), box=box, pbc=(True, False, True), symbols=['Al', None], masses=[26.98, None])
+        s = am.System(atoms=am.Atoms(pos=sa(P), atype=[2, 1], force2=sa(F), energy=sa(E), count=np.array([4, 6])), box=box, pbc=(True, False, True), symbols=['Al', None, 'Cu'], masses=[26.98, None, 63.55])       # a third, declared but unused type
         pu = {'atype': None, 'pos': pos_unit, 'force2': None, 'energy': 'eV', 'count': None}
         pL1 = ufac(uc, pos_unit); pB1 = ufac(uc, box_unit); pE1 = ufac(uc, 'eV')
-        m = s.model(box_unit=box_unit, prop_unit=pu)
+        if via_dump:
+            # the list form of the property units, through the dump interface
+            names = list(pu)
+            m = s.dump('system_model', box_unit=box_unit, prop_name=names, unit=[pu[k] for k in names])
+        else:
+            m = s.model(box_unit=box_unit, prop_unit=pu)
         ob = [('periodic flags stored', list(m['atomic-system']['periodic-boundary-condition']) == [True, False, True])]
         models = [m] + (list(roundtrip_text(m)) if not sx.symbolic_mode() else [])
         uc = install('_w2')
@@ -122,7 +130,7 @@ def h_system(pos_unit, box_unit):
         for n, mm in enumerate(models):
             tag = ['model', 'json', 'xml'][n]
             new = am.System(model=mm)
-            ob.append((f'{tag}: natoms, types, symbols, masses, pbc', band(new.natoms == 2, [int(t) for t in new.atoms.atype] == [2, 1], tuple(new.symbols) == ('Al', None), tuple(new.masses) == (26.98, None),
+            ob.append((f'{tag}: natoms, types, symbols, masses, pbc', band(new.natoms == 2, [int(t) for t in new.atoms.atype] == [2, 1], new.natypes == 3, tuple(new.symbols) == ('Al', None, 'Cu'), tuple(new.masses) == (26.98, None, 63.55),
                                                                           tuple(bool(x) for x in new.pbc) == (True, False, True))))
             if new.natoms != 2: continue
             nV = new.box.vects; nO = new.box.origin
@@ -173,10 +181,12 @@ def cases(tier, seed=0):
         for unit in ('angstrom', 'eV/angstrom^3', None) if shape in ((), (2, 2)) else ('GPa', None):
             cs.append(Case(f'value_{"x".join(map(str, shape)) or "scalar"}_{str(unit).replace("/", "_per_").replace("^", "")}', h_value(shape, unit), bind=BIND, reload=('atomman.unitconvert',), budget_s=150, timeout_ms=20000,
                            descr=f'uc.model / uc.value_unit, shape {shape}, unit {unit}, written and read under different working units'))
+    cs.append(Case('value_3x2_transposed_GPa', h_value((3, 2), 'GPa', transposed=True), bind=BIND, reload=('atomman.unitconvert',), budget_s=150, timeout_ms=20000, descr='uc.model / uc.value_unit on a transposed (non C-contiguous) array'))
     for unit in ('angstrom', 'nm'):
         cs.append(Case(f'box_{unit}', h_box(unit), bind=BIND, reload=('atomman.unitconvert',), budget_s=150, timeout_ms=20000, descr=f'Box.model / Box(model=), length_unit {unit}'))
     for pu, bu in (('angstrom', 'angstrom'), ('scaled', 'nm'), ('nm', 'angstrom')):
         cs.append(Case(f'system_pos-{pu}_box-{bu}', h_system(pu, bu), bind=BIND, reload=('atomman.unitconvert',), budget_s=170, timeout_ms=20000, weight=2, descr=f'System.model / System(model=): positions in {pu}, box in {bu}'))
+    cs.append(Case('system_dump_list_units', h_system('nm', 'angstrom', via_dump=True), bind=BIND + ['atomman.dump.system_model.dump'], reload=('atomman.unitconvert',), budget_s=170, timeout_ms=20000, weight=2, descr='system.dump(system_model) with prop_name=[...], unit=[...]'))
     if tier == 'thorough':
         cs.append(Case('elastic_GPa', h_elastic('GPa', 'triclinic'), bind=BIND, reload=('atomman.unitconvert',), budget_s=900, timeout_ms=60000, descr='ElasticConstants.model / ElasticConstants(model=), unit GPa'))
     return cs
